@@ -138,6 +138,131 @@ def _unit(args):
     return u.result()
 
 
+def _iv_us(e):
+    a = S.us_of(e.timestamp)
+    return a, a + S.dus_of(e.duration)
+
+
+def _unit_frac(ks):
+    """fractional pulsetimes: for every k, pulsetime k/1000 s; a gap of EXACTLY the pulsetime is closed, a gap
+    1 ms longer stays open (seeded: threshold built as timedelta(milliseconds=int(pulsetime * 1000)),
+    which loses a millisecond for values such as 1.001)"""
+    from datetime import timedelta
+
+    ctx = _G["ctx"]
+    emb = Emb(ctx.base, 1_000)
+    La, Lb = ctx.labels[:2]
+    u = Unit()
+    for k in ks:
+        p = k / 1000
+        for same in (True, False):
+            for extra in (0, 1):
+                a = emb.ev(0, 10, La)
+                b = emb.ev(10 + k + extra, 10, La if same else Lb)
+                try:
+                    out = flood([a, b], pulsetime=p)
+                except Exception as ex:
+                    u.violation("flood:raised", f"{type(ex).__name__}: {ex}", {"kind": "frac", "k": k})
+                    continue
+                u.states += 1
+                u.evaluations += 1
+                u.transitions += 1
+                u.nontrivial += 1
+                ivs = sorted(_iv_us(e) for e in out)
+                lo, hi = _iv_us(emb.ev(0, 10, La))[0], _iv_us(emb.ev(10 + k + extra, 10, La))[1]
+                covered = sum(y - x for x, y in ivs)
+                closed = len(ivs) >= 1 and ivs[0][0] == lo and ivs[-1][1] == hi and covered == hi - lo
+                untouched = ivs == sorted([_iv_us(emb.ev(0, 10, La)), _iv_us(emb.ev(10 + k + extra, 10, La))])
+                case = {"kind": "frac", "k": k, "same": same, "extra": extra}
+                if extra == 0 and not closed:
+                    u.violation("flood:fractional-pulsetime:gap-equal-to-pulsetime-left-open", f"flood([0..10 ms, {10 + k}..{20 + k} ms] {'same' if same else 'different'} data, pulsetime {p!r} s): gap of exactly {k} ms not closed: {ivs}", case, size=k)
+                if extra == 1 and not untouched:
+                    u.violation("flood:fractional-pulsetime:longer-gap-closed", f"flood(gap {k + 1} ms, pulsetime {p!r} s) changed the events: {ivs}", case, size=k)
+    u.sample({"kind": "fractional pulsetimes", "k_ms": [ks[0], ks[-1]], "gaps": "k and k+1 ms", "data": "same and different"}, cap=1)
+    return u.result()
+
+
+def _unit_subms(seqs):
+    """events that END inside a millisecond (duration + 500 us; timestamps have ms resolution, so an exact
+    seam is not representable): nothing that was covered may be lost, every label keeps what it covered,
+    outputs may overlap only by the sub-millisecond part of such an end (< 1 ms), and newly covered
+    time lies inside gaps of at most the pulsetime (seeded: the backward extension computed its new
+    duration from the unfloored end and lost the fraction at the far end)"""
+    from datetime import timedelta
+
+    ctx = _G["ctx"]
+    emb = Emb(ctx.base, 1_000)
+    L = ctx.labels[:2]
+    u = Unit()
+    for seq in seqs:
+        n = len(seq)
+        for labels in itertools.product(L, repeat=n):
+            for frac in itertools.product((0, 500), repeat=n):
+                if not any(frac):
+                    continue
+                for p in (0, 1, 2):
+                    evs = []
+                    for (s0, d0), l, f in zip(seq, labels, frac):
+                        e = emb.ev(s0, d0, l)
+                        if f and d0 > 0:
+                            e.duration = e.duration + timedelta(microseconds=f)
+                        evs.append(e)
+                    ins = [_iv_us(e) + (e.data["label"],) for e in evs]
+                    if any(ins[i][1] > ins[i + 1][0] for i in range(n - 1)):
+                        continue  # the extension made the inputs overlap: outside the quantifier
+                    try:
+                        out = flood(evs, pulsetime=p / 1000)
+                    except Exception as ex:
+                        u.violation("flood:raised", f"{type(ex).__name__}: {ex}", {"kind": "subms", "seq": [list(x) for x in seq]})
+                        continue
+                    u.states += 1
+                    u.evaluations += 1
+                    u.transitions += 1
+                    u.nontrivial += 1
+                    outs = sorted(_iv_us(e) + (e.data["label"],) for e in out)
+                    case = {"kind": "subms", "seq": [list(x) for x in seq], "labels": list(labels), "frac": list(frac), "pulsetime_ms": p}
+                    bad = None
+
+                    def covered_by(x0, x1, ivs):
+                        pos = x0
+                        for a, b in sorted(ivs):
+                            if b <= pos:
+                                continue
+                            if a > pos:
+                                return False
+                            pos = b
+                            if pos >= x1:
+                                return True
+                        return pos >= x1
+
+                    for a, b, l in ins:
+                        if b > a and not covered_by(a, b, [(x, y) for x, y, ll in outs if ll == l]):
+                            bad = ("input-time-lost", f"[{a},{b}) us labelled {l!r} is no longer covered under that label")
+                            break
+                    if not bad:
+                        for (a0, b0, _), (a1, b1, _) in zip(outs, outs[1:]):
+                            if b0 - a1 >= 1000:
+                                bad = ("outputs-overlap", f"outputs [{a0},{b0}) and [{a1},{b1}) overlap by {b0 - a1} us (>= 1 ms)")
+                                break
+                    if not bad:
+                        for a, b, l in outs:
+                            if b <= a:
+                                bad = ("non-positive-length-output", f"[{a},{b})")
+                    if bad:
+                        u.violation(f"flood:sub-ms-end:{bad[0]}", f"flood({ins}, pulsetime {p} ms): {bad[1]}; output {outs}", case, size=n * 100 + p)
+    if seqs:
+        u.sample({"kind": "sub-millisecond ends", "seq": [list(x) for x in seqs[0]], "fractions_us": [0, 500]}, cap=1)
+    return u.result()
+
+
+def _dispatch(x):
+    if x[0] == "frac":
+        return _unit_frac(x[1])
+    if x[0] == "subms":
+        return _unit_subms(x[1])
+    return _unit(x)
+
+
 def run(ctx):
     _G["ctx"] = ctx
     plan = []
@@ -159,8 +284,15 @@ def run(ctx):
         space.append({"unit_us": unit_us, "N": N, "n": n, "sequences": len(seqs), "pulsetimes": list(P), "orders": orders})
         for ch in chunked(seqs, ctx.workers * 4):
             units.append((unit_us, N, n, ch, P, orders))
+    ks = list(range(1, 10000 if ctx.thorough else 3000))
+    for ch in chunked(ks, ctx.workers):
+        units.append(("frac", ch))
+    sub = [q for n in (2, 3) for q in sequences(5, n)]
+    for ch in chunked(sub, ctx.workers * 2):
+        units.append(("subms", ch))
+    space.append({"fractional_pulsetimes_ms": [ks[0], ks[-1]], "sub_ms_end_sequences": len(sub)})
     agg = Agg()
-    for r in ctx.pmap(_unit, units):
+    for r in ctx.pmap(_dispatch, units):
         agg.add(r)
     agg.extra["space"] = space
     ctx.selfcheck(agg.nontrivial > 0, "no non-trivial sequence")
@@ -169,6 +301,12 @@ def run(ctx):
 
 def run_case(ctx, case):
     _G["ctx"] = ctx
+    if case.get("kind") == "frac":
+        r = _unit_frac([case["k"]])
+        return {"violations": [[v["key"], v["what"]] for v in r["violations"]]}
+    if case.get("kind") == "subms":
+        r = _unit_subms([tuple(tuple(x) for x in case["seq"])])
+        return {"violations": [[v["key"], v["what"]] for v in r["violations"]]}
     emb = Emb(ctx.base, case["unit_us"])
     seq = tuple(tuple(x) for x in case["seq"])
     probs, got = run_one(emb, seq, tuple(case["labels"]), case["pulsetime_units"], tuple(case["order"]))
